@@ -26,3 +26,15 @@ from . import e2_protocol
           'verdicts cover every composition, every N and every input stream.')
 def c01(F, R, tier):
     e2_protocol.run_c01(F, R)
+
+
+from . import e_c14
+
+
+@register('C14', 'proof',
+          'Static proof over the value graph (gated SSA) of last∘update for the nine combinators: statelessness by '
+          'type (S1), the reported term is exactly the specified operator applied to the children\'s current outputs '
+          '(S2), Some exactly when every child reports (S2b), and no dependence on pre-update state (S3). The terms '
+          'are symbolic in every input and child output, so the verdict holds for all children, inputs and steps.')
+def c14(F, R, tier):
+    e_c14.run_c14(F, R)
